@@ -121,8 +121,13 @@ def check_region(ctx, case, L, region, pts, use_flags, light=False):
                 ctx.violation("scalar_vector_lookup_disagree", {"pt": pts[i], "vector": idx[pos], "single": repr(o)}, mini(i))
     # ---- catalog observers agree with the same partition
     events = [("e%d" % i, i, float(lats[i]), float(lons[i]), 1.0, 5.0) for i in range(len(pts))]
-    for in_place in (False, True):
-        cat = CSEPCatalog(data=events)
+    # the catalog may already be bound to another region (a one-cell region far away): the region handed over decides
+    from csep.core.regions import CartesianGrid2D
+    far = call(lambda: CartesianGrid2D.from_origins(numpy.array([[float(min(lons)) - 50 * L.fdh - 7.0, float(min(lats))]]), dh=L.fdh))
+    for in_place, bound in ((False, False), (True, False), (False, True), (True, True)):
+        if bound and not far.ok:
+            continue
+        cat = CSEPCatalog(data=events, region=far.value if bound else None)
         o = call(cat.filter_spatial, region, in_place=in_place)
         if not o.ok:
             ctx.unexpected(o, "filter_spatial")
@@ -130,8 +135,8 @@ def check_region(ctx, case, L, region, pts, use_flags, light=False):
         kept = [int(t) for t in o.value.get_epoch_times()]
         if kept != un:
             diff = sorted(set(kept) ^ set(un))
-            ctx.violation("filter_spatial_disagrees_with_mask", {"n_kept": len(kept), "n_unmasked": len(un), "first": diff[:3],
-                                                                  "pt": [pts[i] for i in diff[:3]]}, mini(diff[0]) if diff else None)
+            ctx.violation("filter_spatial_disagrees_with_mask" + (":catalog_bound_to_another_region" if bound else ""),
+                          {"n_kept": len(kept), "n_unmasked": len(un), "first": diff[:3], "pt": [pts[i] for i in diff[:3]]}, mini(diff[0]) if diff else None)
         if not in_place and cat.event_count != len(pts):
             ctx.violation("filter_spatial_mutated_source", None)
     # sub-catalogs: the decision per event does not depend on which other events are in the catalog (all events inside the
